@@ -90,6 +90,11 @@ fn key_main<C: key::KeyColl>(a: &Args, tr: &mut out::Trace) {
             let text = std::fs::read_to_string(a.str("file", "")).expect("replay file");
             key::run_replay::<C>(tr, &text, a.num("keys", 8) as i32);
         }
+        "ind" => {
+            let text = std::fs::read_to_string(a.str("states", "")).expect("states file");
+            let states: Vec<out::Snap> = text.lines().filter(|l| !l.trim().is_empty()).map(|l| out::parse_snap(l).expect("start state")).collect();
+            key::run_ind::<C>(tr, &states, a.num("export", 1) != 0);
+        }
         "sizes" => key::run_sizes::<C>(tr, a.num("max", 100000) as u64, a.num("seed", 1) as u64),
         "paths" | "faults" => {
             let text = std::fs::read_to_string(a.str("paths", "")).expect("paths file");
